@@ -176,6 +176,7 @@ def run(chk):
     r2_multi_run(chk, repo)
     r3_work_queue(chk, repo)
     r4_publish_after_construct(chk, repo)
+    r4b_private_copy(chk, repo)
     r5_forwarding(chk, repo)
     r6_temp_plugin_window(chk, repo)
 
@@ -422,6 +423,26 @@ def r4_publish_after_construct(chk, repo):
             chk.check(bad is None, "C15.R4", f, st, f"{bad} after it was put into the shared cache: a concurrent worker can pick up the half-built plugin (and a failure here leaves a broken plugin cached for all later runs)",
                       site_text=f"__get_plugin: `{head(st, 50)}` does not touch the published plugin", site={"function": f.qualname, "after_publish": norm(st)[:80]}, nontrivial=bad is not None)
 
+def r4b_private_copy(chk, repo):
+    """__assign_chunk_number_to_plugin writes chunk numbers into the plugin's lineage: every plugin
+    handed to it from __get_plugin is a private deep copy, never the object kept in the shared cache."""
+    f = repo.func("Context.__get_plugin", CONTEXT)
+    d = Defs(f.node)
+    calls = [c for c in calls_in(f.node) if (call_name(c) or "").endswith("__assign_chunk_number_to_plugin") and c.args]
+    chk.check(len(calls) >= 2, "C15.R4", f, None, "the chunk-number assignment sites of __get_plugin were not found", site_text="__get_plugin: chunk numbers assigned in the cached and the cold branch")
+    cfg = cfg_of(f)
+    from ..rules import reaching
+    r = reaching(f)
+    for c in calls:
+        a = c.args[0]
+        ok = False
+        if isinstance(a, ast.Name):
+            ds = [x for x in r.defs_of(cfg.node_of(stmt_of(c)), a.id) if x[1] is not None]
+            ok = bool(ds) and all(isinstance(x[1], ast.Call) and isinstance(x[1].func, ast.Attribute) and x[1].func.attr == "__copy__" and x[1].args and norm(x[1].args[0]) == "True" for x in ds)
+        chk.check(ok, "C15.R4", f, stmt_of(c), f"`{norm(c)[:70]}` writes chunk numbers into a plugin that is not a private deep copy (`.__copy__(True)`): the lineage dicts are shared with the plugin in the shared cache, so later requests (and other workers) see chunk numbers of this one",
+                  site_text="__get_plugin: chunk numbers only written into `<plugin>.__copy__(True)`", site={"function": f.qualname, "rule": "private deep copy", "call": norm(c)[:50]})
+
+
 # ------------------------------------------------------------------------------------ R5
 def r5_forwarding(chk, repo):
     chk.describe("C15.R5", "the multi-run branch of a Context method hands every argument on to multi_run that the single-run branch uses (a many-runs call behaves like the sequence of single-run calls)")
@@ -480,6 +501,8 @@ def r6_temp_plugin_window(chk, repo):
 
 
 WITNESSES = [
+    W("chunk numbers written into the cached plugin", "C15.R4", CONTEXT,
+      "target_plugin = cached_plugins[data_type].__copy__(True)", "target_plugin = cached_plugins[data_type]"),
     W("get_array forgets save= for many runs", "C15.R5", CONTEXT,
       "targets=targets,\n                log=self.log,\n                save=save,\n                max_workers=max_workers,", "targets=targets,\n                log=self.log,\n                max_workers=max_workers,"),
     W("temporary plugin cleaned up after the first chunk", "C15.R6", CONTEXT,
